@@ -23,8 +23,20 @@ type EchoReply struct {
 }
 
 // EchoService is registered on both ends of a connection.
+// InnerService sits behind a jsonrpc2.Local.
+type InnerService struct {
+	self *jsonrpc2.Local
+}
+
+// Check reports whether the context service is the Local the call came through.
+func (i *InnerService) Check(ctx context.Context) (bool, error) {
+	svc, err := jsonrpc2.CtxService(ctx)
+	return err == nil && svc == jsonrpc2.Service(i.self), nil
+}
+
 type EchoService struct {
 	Name   string
+	local  *jsonrpc2.Local
 	self   *jsonrpc2.Remote
 	mu     sync.Mutex
 	counts map[string]int
@@ -39,6 +51,15 @@ func (s *EchoService) Echo(ctx context.Context, token string, depth int) (*EchoR
 	s.mu.Unlock()
 	svc, err := jsonrpc2.CtxService(ctx)
 	rep := &EchoReply{Token: token, Callee: s.Name, CtxOK: err == nil && svc == jsonrpc2.Service(s.self)}
+	if depth > 0 && s.local != nil && len(token)%3 == 0 {
+		// part of the work is delegated to an in-process service, handing on this request's context;
+		// the handler behind it must see that in-process service, not the connection
+		var ok bool
+		if lerr := s.local.Call(ctx, &ok, "inner_check"); lerr != nil || !ok {
+			rep.Nested = fmt.Sprintf("in-process handler saw a foreign context service (err=%v)", lerr)
+			return rep, nil
+		}
+	}
 	if depth > 0 && err == nil {
 		cctx, cancel := context.WithTimeout(context.Background(), 60*time.Second)
 		defer cancel()
@@ -81,6 +102,14 @@ func newC14Pair(ca, cb jsonrpc2.Codec, limit, discard int) *c14Pair {
 	p.a = &jsonrpc2.Remote{Codec: ca, Server: srvA, Client: &jsonrpc2.Client{}, PendingLimit: limit, PendingDiscard: discard}
 	p.b = &jsonrpc2.Remote{Codec: cb, Server: srvB, Client: &jsonrpc2.Client{}, PendingLimit: limit, PendingDiscard: discard}
 	p.sa.self, p.sb.self = p.a, p.b
+	for _, es := range []*EchoService{p.sa, p.sb} {
+		loc := &jsonrpc2.Local{}
+		inner := &InnerService{self: loc}
+		if err := loc.Server.RegisterMethod("inner_check", inner, "Check"); err != nil {
+			panic(err)
+		}
+		es.local = loc
+	}
 	go p.a.Serve()
 	go p.b.Serve()
 	return p
@@ -110,6 +139,14 @@ func c14Round(ev *vlib.Evidence, transport string, idx int) {
 		c1, c2 := net.Pipe()
 		pair = newC14Pair(jsonrpc2.IOCodec(c1), jsonrpc2.IOCodec(c2), limit, discard)
 		pair.closer = func() { c1.Close(); c2.Close() }
+	case "gorilla":
+		cc, sc, srv := wsPair("gorilla", vlib.ChunkAll, r.Int63())
+		if cc == nil || sc == nil {
+			ev.Inconclusive("ws-setup")
+			return
+		}
+		pair = newC14Pair(cc, sc, limit, discard)
+		pair.closer = func() { cc.Close(); sc.Close(); srv.Close() }
 	case "tcp":
 		ln, err := net.Listen("tcp", "127.0.0.1:0")
 		if err != nil {
@@ -323,10 +360,11 @@ func c14Round(ev *vlib.Evidence, transport string, idx int) {
 
 func TestC14(t *testing.T) {
 	ev := vlib.NewEvidence("C14", "exploration",
-		"two real jsonrpc2.Remote ends joined by (a) an in-memory network that delivers queued messages in PRNG-chosen order (replies overtake requests, bursts, replies before the caller waits) and can withhold replies, (b) IOCodec over net.Pipe, (c) IOCodec over loopback TCP; 1..16 concurrent callers per side, unique token per call, handlers echo (token, callee, identity of the context service) and call back over the same connection to depth <= 3; cancellations are issued while the reply is provably withheld, then the late reply is released; PendingLimit 0 and 50/10; non-trivial = calls succeeded with >1 caller or nesting (memnet: and at least one reordered delivery); distinct = round descriptors")
+		"two real jsonrpc2.Remote ends joined by (a) an in-memory network that delivers queued messages in PRNG-chosen order (replies overtake requests, bursts, replies before the caller waits) and can withhold replies, (b) IOCodec over net.Pipe, (c) IOCodec over loopback TCP, (d) the gorilla WebSocket codec over loopback; handlers also delegate to an in-process jsonrpc2.Local handing on their context; 1..16 concurrent callers per side, unique token per call, handlers echo (token, callee, identity of the context service) and call back over the same connection to depth <= 3; cancellations are issued while the reply is provably withheld, then the late reply is released; PendingLimit 0 and 50/10; non-trivial = calls succeeded with >1 caller or nesting (memnet: and at least one reordered delivery); distinct = round descriptors")
 	ev.Assume("stall detection is logical (no delivery and no completion for 15 s with calls outstanding), not a deadline on the round")
 	parallelCases(vlib.Scale(200, 6000), 8, func(i int) { c14Round(ev, "memnet", i) })
 	parallelCases(vlib.Scale(40, 600), 8, func(i int) { c14Round(ev, "pipe", i) })
 	parallelCases(vlib.Scale(40, 600), 8, func(i int) { c14Round(ev, "tcp", i) })
+	parallelCases(vlib.Scale(30, 400), 4, func(i int) { c14Round(ev, "gorilla", i) })
 	finish(t, ev)
 }
